@@ -74,12 +74,45 @@ func wrapperPool() []string {
 
 var wpool = wrapperPool()
 
-// one pool selection; a third of the picks are wrapper-variation selections
-func pick(r *hx.Rng) string {
-	if r.Chance(1, 3) {
-		return r.Pick(wpool)
+// typeless wraps a selection into an inline fragment WITHOUT type condition (bare or with a directive); for an item of
+// the form `... on T { SEL }` the typeless fragment goes INSIDE the typed one, otherwise around the whole item. The
+// fields keep the parent type of the enclosing selection (getFieldsAndFragmentNames: inlineFragmentType := parentType).
+func typeless(r *hx.Rng, item string) string {
+	head := "..."
+	switch r.Intn(4) {
+	case 1:
+		head = "... @include(if: true)"
+	case 2:
+		head = "... @skip(if: $v)"
 	}
-	return r.Pick(pool)
+	wrap := func(sel string) string {
+		if r.Chance(1, 4) { // nested in one another
+			return head + " { ... { " + sel + " } }"
+		}
+		return head + " { " + sel + " }"
+	}
+	for _, t := range []string{"A", "B"} {
+		pre := "... on " + t + " { "
+		if strings.HasPrefix(item, pre) && strings.HasSuffix(item, " }") {
+			return pre + wrap(item[len(pre):len(item)-2]) + " }"
+		}
+	}
+	return wrap(item)
+}
+
+// one pool selection; a third of the picks are wrapper-variation selections; a quarter of all picks are put into a
+// typeless inline fragment
+func pick(r *hx.Rng) string {
+	item := ""
+	if r.Chance(1, 3) {
+		item = r.Pick(wpool)
+	} else {
+		item = r.Pick(pool)
+	}
+	if r.Chance(1, 4) {
+		item = typeless(r, item)
+	}
+	return item
 }
 
 func schemaDesc() *gq.SchemaDesc {
